@@ -166,6 +166,25 @@ example : pairwiseDistinguishable exCs = true := by decide
 example : dispatch exCs.reverse [.named 1 (.base .int)] = some ⟨2, [.named 1 (.base .int)]⟩ := by decide
 example : dispatch exCs [.base .bool] = none := by decide
 
+/-- **Lambda / literal / constant arguments.**  When exactly one candidate accepts the call (the
+generator's decidable condition for these argument forms), every listing order dispatches to it. -/
+theorem C10_lambda_dispatch_unique (cs cs' : List LCand) (call : LCall) (c : LCand)
+    (hperm : cs'.Perm cs) (hc : c ∈ cs) (hacc : lcandAccepts c call = true)
+    (huniq : ∀ x ∈ cs, lcandAccepts x call = true → x = c) :
+    ldispatch cs' call = some c := by
+  apply find_unique _ cs' c (hperm.mem_iff.mpr hc) hacc
+  intro x hx hax
+  exact huniq x (hperm.mem_iff.mp hx) hax
+
+/-- `try = (tryErr, tryPlain)`: `x => x*2` is for `tryPlain`, `x => (x*2, nil)` for `tryErr`, in
+either order; a block lambda only sees the arity, so there both candidates accept (excluded). -/
+example :
+    let plain : LCand := ⟨0, .none, 1, 1, false⟩
+    let err : LCand := ⟨1, .none, 1, 2, false⟩
+    ldispatch [err, plain] ⟨.none, .expr 1 1⟩ = some plain ∧
+    ldispatch [plain, err] ⟨.none, .expr 1 2⟩ = some err ∧
+    lacceptors [plain, err] ⟨.none, .block 1⟩ = 2 := by decide
+
 /-! ## (i) encoding / decoding -/
 
 theorem splitAux_append_nocomma (x rest cur : Str) (hx : ',' ∉ x) :
